@@ -349,6 +349,8 @@ func (x *Exec) execAssign(st *State, s *ast.AssignStmt) *State {
 			return nil
 		}
 		for i, l := range s.Lhs {
+			// capacity of local slices (make / append) is tracked before the value changes
+			x.trackCap(st, l, s.Rhs[i])
 			x.assignOrDefine(st, l, vals[i], s.Tok)
 		}
 		return st
@@ -770,6 +772,9 @@ func (x *Exec) havocLoopTargets(st *State, body []ast.Node, extraModifies []*Cla
 				nv = T{S: fmt.Sprintf("(mk-slc %s %s %s)", slcArr(nv.S), slcOff(cur.S), slcLen(cur.S)), Ty: nv.Ty}
 			}
 			st.vars[o] = nv
+			if mod.direct[o] {
+				x.havocCap(st, o)
+			}
 		} else if ref, ok := st.boxed[o]; ok {
 			x.storeThrough(st, ref, o.Type(), x.havocVal(st, o.Name(), o.Type()))
 		}
